@@ -273,7 +273,8 @@ class JointRecurrencePlot(RecurrencePlot):
             #     recurrence_y[:N+self.lag, :N+self.lag]
             self.JR = recurrence_y[:N+self.lag, :N+self.lag] * \
                 recurrence_x[-self.lag:N, -self.lag:N]
-        self.N = N
+        #  The joint plot only covers the overlap of the two (lagged) plots
+        self.N = self.JR.shape[0]
 
     def set_fixed_threshold_std(self, threshold_std):
         """
@@ -336,4 +337,5 @@ class JointRecurrencePlot(RecurrencePlot):
             #     recurrence_y[:N+self.lag, :N+self.lag]
             self.JR = recurrence_y[:N+self.lag, :N+self.lag] * \
                 recurrence_x[-self.lag:N, -self.lag:N]
-        self.N = N
+        #  The joint plot only covers the overlap of the two (lagged) plots
+        self.N = self.JR.shape[0]
